@@ -1,16 +1,17 @@
-SPECIFICATION SpecT
+SPECIFICATION Spec
 CONSTANTS
-  ReqHandles <- QuickReqHandles
-  MaxLen = 1
-  N1 = {0}
-  N2 = {0}
-  S3 = {TRUE}
+  ReqHandles <- AllReqHandles
+  MaxLen = 3
+  N1 = {0, 1, 2}
+  N2 = {0, 1, 2}
+  S3 = {TRUE, FALSE}
   StoreIds <- AllStoreIds
   FRefs <- AllFRefs
   FVers <- AllFVers
   FLangs <- AllFLangs
   FWidths <- AllFWidths
   FLines <- AllFLines
+INVARIANT LawH
 INVARIANT LawS
 INVARIANT LawT
 CONSTRAINT EmitCase
